@@ -9,6 +9,8 @@ package main
 //   switch x.(type) { case T: A }      -> if _, ok := x.(T); ok { A }      (one clause, one type, no binding, no default)
 //   inside a loop body:
 //     v, ok := m[k]; if !ok { continue }; REST          -> if v, ok := m[k]; ok { REST }    (ok not used in REST)
+//   for i := range X { t := X[i]; REST }  /  for i := 0; i < len(X); i++ { t := X[i]; REST }
+//                                      -> for _, t := range X { REST }      (i not used in REST; t, X not assigned)
 //
 // Whenever a side condition fails the code is left as it is.
 
@@ -124,6 +126,8 @@ func c05NormList(l []ast.Stmt, inLoop bool) []ast.Stmt {
 			if is, ok := c05NormTypeSwitch(x); ok {
 				s = is
 			}
+		case *ast.RangeStmt, *ast.ForStmt:
+			s = c05NormIndexLoop(s)
 		}
 		out = append(out, s)
 	}
@@ -158,6 +162,79 @@ func c05NormList(l []ast.Stmt, inLoop bool) []ast.Stmt {
 		}
 	}
 	return out
+}
+
+// c05NormIndexLoop: for i := range X { t := X[i]; REST } / for i := 0; i < len(X); i++ { t := X[i]; REST }
+// -> for _, t := range X { REST }   (X an identifier, i not used in REST, neither t nor X assigned in REST)
+func c05NormIndexLoop(s ast.Stmt) ast.Stmt {
+	var x ast.Expr
+	var idx string
+	var body *ast.BlockStmt
+	switch l := s.(type) {
+	case *ast.RangeStmt:
+		if l.Value != nil || l.Tok != token.DEFINE {
+			return s
+		}
+		x, idx, body = l.X, c05Ident(l.Key), l.Body
+	case *ast.ForStmt:
+		as, ok := l.Init.(*ast.AssignStmt)
+		if !ok || as.Tok != token.DEFINE || len(as.Lhs) != 1 || len(as.Rhs) != 1 {
+			return s
+		}
+		if bl, ok := as.Rhs[0].(*ast.BasicLit); !ok || bl.Value != "0" {
+			return s
+		}
+		idx = c05Ident(as.Lhs[0])
+		be, ok := l.Cond.(*ast.BinaryExpr)
+		if !ok || be.Op != token.LSS || c05Ident(be.X) != idx {
+			return s
+		}
+		call, ok := be.Y.(*ast.CallExpr)
+		if !ok || c05Ident(call.Fun) != "len" || len(call.Args) != 1 {
+			return s
+		}
+		inc, ok := l.Post.(*ast.IncDecStmt)
+		if !ok || inc.Tok != token.INC || c05Ident(inc.X) != idx {
+			return s
+		}
+		x, body = call.Args[0], l.Body
+	default:
+		return s
+	}
+	xn := c05Ident(x)
+	if xn == "" || idx == "" || idx == "_" || len(body.List) < 2 {
+		return s
+	}
+	as, ok := body.List[0].(*ast.AssignStmt)
+	if !ok || as.Tok != token.DEFINE || len(as.Lhs) != 1 || len(as.Rhs) != 1 {
+		return s
+	}
+	ix, ok := as.Rhs[0].(*ast.IndexExpr)
+	tv := c05Ident(as.Lhs[0])
+	if !ok || c05Ident(ix.X) != xn || c05Ident(ix.Index) != idx || tv == "" || tv == "_" {
+		return s
+	}
+	rest := body.List[1:]
+	if c05UsesIdent(rest, idx) {
+		return s
+	}
+	assigned := false
+	for _, r := range rest {
+		ast.Inspect(r, func(n ast.Node) bool {
+			if a, ok := n.(*ast.AssignStmt); ok {
+				for _, lh := range a.Lhs {
+					if id := c05Ident(lh); id == tv || id == xn {
+						assigned = true
+					}
+				}
+			}
+			return true
+		})
+	}
+	if assigned {
+		return s
+	}
+	return &ast.RangeStmt{Key: ast.NewIdent("_"), Value: ast.NewIdent(tv), Tok: token.DEFINE, X: x, Body: &ast.BlockStmt{List: rest}}
 }
 
 // c05NormalizeFile rewrites every block of the file in place (innermost blocks last, so that a rewritten
